@@ -91,6 +91,14 @@ MUTANTS = [
      "AegeanTools/source_finder.py",
      "        l, n = label(a, structure=np.ones((3, 3)))\n        f = find_objects(l)",
      "        l, n = label(a)\n        f = find_objects(l)", "C01-R8"),
+    ("BANE skipped when either map is forced (seed C01c)",
+     "AegeanTools/source_finder.py",
+     "        if (forced_rms is not None) and (forced_bkg is not None):\n            return",
+     "        if (forced_rms is not None) or (forced_bkg is not None):\n            return", "C01-R9"),
+    ("estimated background overwrites the forced one",
+     "AegeanTools/source_finder.py",
+     "        if forced_bkg is None:\n            self.global_data.bkgimg = bkg",
+     "        if forced_rms is None:\n            self.global_data.bkgimg = bkg", "C01-R9"),
 ]
 TWINS = [
     ("radians spelled out", "AegeanTools/wcs_helpers.py",
@@ -142,6 +150,8 @@ def run(ctx):
     # pixels): the same formula rule as C03-R6
     from .c03 import r6 as int_flux_formula
     int_flux_formula(ctx, prog, prog.module("source_finder"), rule="C01-R7")
+    # ---------------------------------------------------------------- R9
+    r9(ctx, prog)
     # ---------------------------------------------------------------- R8
     ctx.rule("C01-R8", "one peak, one component: every pixel-mask "
              "segmentation reachable from blind finding (islands AND the "
@@ -279,6 +289,112 @@ def r3(ctx, prog):
                       emp_default.value is False,
                       "Dfun must be the wrapper around the analytic "
                       "Jacobian", node=c)
+
+
+def r9(ctx, prog):
+    """the noise / background maps are forced or estimated, independently"""
+    import itertools
+    ctx.rule("C01-R9", "noise and background: for each of the four "
+             "combinations of forced / not forced, _make_bkg_rms leaves the "
+             "rms map = the forced value if given else the BANE estimate, and "
+             "likewise the background map (path enumeration over the two "
+             "None-tests)")
+    fi = prog.func("source_finder.SourceFinder._make_bkg_rms")
+    P = {"rms": None, "bkg": None}
+    for p_ in fi.params:
+        if "rms" in p_:
+            P["rms"] = p_
+        if "bkg" in p_:
+            P["bkg"] = p_
+    if None in P.values():
+        raise AnalysisError("C01-R9: forced_rms / forced_bkg parameters")
+    est = {}       # local name -> which estimated map it holds
+    for s_ in walk_no_nested(fi.node):
+        if isinstance(s_, ast.Assign) and isinstance(s_.value, ast.Call) and \
+                norm(s_.value.func).endswith("filter_image") and \
+                isinstance(s_.targets[0], ast.Tuple) and \
+                len(s_.targets[0].elts) == 2:
+            est[norm(s_.targets[0].elts[0])] = "bkg"     # returns (bkg, rms)
+            est[norm(s_.targets[0].elts[1])] = "rms"
+    if not est:
+        raise AnalysisError("C01-R9: bkg, rms = filter_image(...) not found")
+
+    class Unk(Exception):
+        pass
+
+    def ev(e, given):
+        if isinstance(e, ast.Compare) and len(e.ops) == 1 and \
+                isinstance(e.ops[0], (ast.Is, ast.IsNot, ast.Eq, ast.NotEq)) \
+                and isinstance(e.comparators[0], ast.Constant) and \
+                e.comparators[0].value is None and \
+                isinstance(e.left, ast.Name):
+            for k, nm in P.items():
+                if e.left.id == nm:
+                    isnone = not given[k]
+                    return isnone if isinstance(
+                        e.ops[0], (ast.Is, ast.Eq)) else not isnone
+            raise Unk()
+        if isinstance(e, ast.Name) and e.id in P.values():
+            raise Unk()     # truthiness of a float: 0.0 is a valid level
+        if isinstance(e, ast.UnaryOp) and isinstance(e.op, ast.Not):
+            return not ev(e.operand, given)
+        if isinstance(e, ast.BoolOp):
+            vs = [ev(v, given) for v in e.values]
+            return all(vs) if isinstance(e.op, ast.And) else any(vs)
+        raise Unk()
+
+    def run_block(stmts, given, state):
+        """returns True when a return was executed"""
+        for st in stmts:
+            if isinstance(st, ast.Return):
+                return True
+            if isinstance(st, ast.If):
+                try:
+                    c = ev(st.test, given)
+                except Unk:
+                    if names_in(st.test) & set(P.values()):
+                        raise AnalysisError(
+                            "C01-R9: test %s is not a None-test of the "
+                            "forced values" % norm(st.test))
+                    continue            # unrelated (logging ...) branch
+                if run_block(st.body if c else st.orelse, given, state):
+                    return True
+                continue
+            if isinstance(st, (ast.With, ast.Try)):
+                if run_block(st.body, given, state):
+                    return True
+                continue
+            if isinstance(st, ast.Assign):
+                for t in st.targets:
+                    base = t.value if isinstance(t, ast.Subscript) else t
+                    nm = norm(base)
+                    for k in ("rms", "bkg"):
+                        if nm.endswith("." + k + "img"):
+                            v = norm(st.value)
+                            if v == P[k]:
+                                state[k] = "forced"
+                            elif est.get(v) == k:
+                                state[k] = "estimated"
+                            else:
+                                state[k] = "other: " + v
+        return False
+    n = 0
+    for gr, gb in itertools.product((False, True), repeat=2):
+        given = {"rms": gr, "bkg": gb}
+        state = {"rms": "initial zeros", "bkg": "initial zeros"}
+        run_block(fi.node.body, given, state)
+        want = {k: "forced" if given[k] else "estimated" for k in given}
+        n += 1
+        ctx.check("C01-R9", fi, "rms %s, bkg %s -> %s" % (
+            "forced" if gr else "not forced", "forced" if gb else
+            "not forced", state), state == want,
+            "with rms %s and bkg %s the maps end up as %s (expected %s): a "
+            "map that is neither forced nor estimated stays at the all-zero "
+            "array allocated by load_globals, so the background is taken "
+            "as 0 / the signal-to-noise is x/0" % (
+                "forced" if gr else "not forced", "forced" if gb else
+                "not forced", state, want), node=fi.node)
+    ctx.floor("C01-R9", n, 4, "forced/estimated combinations")
 
 
 def r6(ctx, prog):
